@@ -47,3 +47,24 @@ func SpecEqualFold(a, b string) bool { panic("abstract spec function") }
 //@   ensures patterns_do_not_hide_the_destination [C10]: result == nil && len(args) >= 1 && !takesWord(args[len(args) - 1]) && !SpecEqualFold(args[len(args) - 1], "store") ==> (forall i int :: 1 <= i && i + 1 < len(args) && SpecEqualFold(args[i], "store") ==> takesWord(args[i - 1]))
 //@   loop 1:
 //@     invariant scanned: 1 <= i && (dest == 0 - 1 || (2 <= dest && dest < len(args) && dest < i && SpecEqualFold(args[dest - 1], "store"))) && (forall j int :: ite(dest == 0 - 1, 0, dest) < j && j < i && j + 1 < len(args) && SpecEqualFold(args[j], "store") ==> takesWord(args[j - 1]))
+
+// ---- commands with a key count and fixed keys (ZUNIONSTORE dst numkeys key ..., EVAL ...) ------
+// The fixed keys (e.g. the destination of Z*STORE) are reported whatever the count says, followed
+// by the counted keys starting at the first key position.
+//@ func parseCommandInt
+//@   arith int
+//@   properties C18 C10
+//@   modifies nothing
+//@   loop 1:
+//@     invariant scanning: 0 <= i
+
+//@ func numkeysStepExtractor$1
+//@   arith int
+//@   properties C18 C10
+//@   modifies nothing
+//@   ensures every_fixed_key_is_reported: result != nil ==> len(result) > len(fixedKeys) && (forall i int :: 0 <= i && i < len(fixedKeys) ==> result[i] == fixedKeys[i])
+//@   ensures the_counted_keys_start_at_the_first_key_position: result != nil ==> result[len(fixedKeys)] == firstKeyIdx
+//@   loop 1:
+//@     invariant fixed_so_far: 0 - 1 <= rangeindex && rangeindex < len(fixedKeys) && len(keys) == rangeindex + 1 && fresh(keys) && (forall i int :: 0 <= i && i <= rangeindex ==> keys[i] == fixedKeys[i])
+//@   loop 2:
+//@     invariant fixed_then_counted: fresh(keys) && len(keys) >= len(fixedKeys) && (forall i int :: 0 <= i && i < len(fixedKeys) ==> keys[i] == fixedKeys[i]) && idx#2 >= firstKeyIdx && (len(keys) == len(fixedKeys) <==> idx#2 == firstKeyIdx) && (len(keys) > len(fixedKeys) ==> keys[len(fixedKeys)] == firstKeyIdx) && keyStep > 0
